@@ -329,6 +329,9 @@ impl Model for RecModel {
 
 #[derive(Clone, Debug, Serialize, Deserialize)]
 pub enum ProvOp {
+    /// advance the (offset) clock by 40 minutes: with a 1 h TTL, providers announced two steps ago expire while
+    /// later ones stay (mixed expiry inside one key)
+    Clock,
     GetProviders { key: u8 },
     PutProvider { key: u8, peer: u8, n_addr: usize },
     PutLocal { key: u8 },
@@ -340,6 +343,8 @@ struct RProv {
     peer: u8,
     addrs: Vec<Multiaddr>,
     expired: bool,
+    /// remaining lifetime in units of 10 minutes (rounded): part of the state, it decides what the next clock step does
+    left: u16,
 }
 
 type ProvDump = (BTreeMap<u8, Vec<RProv>>, Vec<u8>);
@@ -357,6 +362,7 @@ pub struct ProvSys {
     store: MemoryStore,
     pre: ProvDump,
     observations: u32,
+    clock_steps: u8,
 }
 
 const LOCAL: u8 = 0;
@@ -382,7 +388,7 @@ impl ProvModel {
 
     fn dump(&self, sys: &ProvSys) -> Result<ProvDump, Viol> {
         let (_, provs, locals) = sys.store.verif_dump();
-        let now = Instant::now();
+        let now = litep2p::verif::clock::now();
         let mut map = BTreeMap::new();
         for (k, list) in provs {
             let mut out = Vec::new();
@@ -394,6 +400,7 @@ impl ProvModel {
                     peer: self.peer_index(&p.provider)?,
                     addrs: p.addresses.clone(),
                     expired: p.is_expired(now),
+                    left: ((p.expires.saturating_duration_since(now).as_secs() + 300) / 600) as u16,
                 });
             }
             map.insert(key_index(&k), out);
@@ -609,17 +616,22 @@ impl Model for ProvModel {
             provider_refresh_interval: 10 * HOUR,
             ..Default::default()
         };
+        litep2p::verif::clock::reset();
         ProvSys {
             store: MemoryStore::with_config(ppeer(LOCAL), config),
             pre: (BTreeMap::new(), Vec::new()),
             observations: 0,
+            clock_steps: 0,
         }
     }
 
-    fn enabled(&self, _sys: &ProvSys) -> Vec<ProvOp> {
+    fn enabled(&self, sys: &ProvSys) -> Vec<ProvOp> {
         let mut v = Vec::new();
         for key in 0..self.keys {
             v.push(ProvOp::GetProviders { key });
+        }
+        if !self.ttl_zero && sys.clock_steps < 2 && !sys.pre.0.is_empty() {
+            v.push(ProvOp::Clock);
         }
         for key in 0..self.keys {
             for peer in 1..=self.peers {
@@ -640,6 +652,19 @@ impl Model for ProvModel {
     fn apply(&self, sys: &mut ProvSys, a: &ProvOp) -> Result<Step, Viol> {
         let pre = sys.pre.clone();
         match *a {
+            ProvOp::Clock => {
+                litep2p::verif::clock::advance(Duration::from_secs(40 * 60));
+                sys.clock_steps += 1;
+                // nothing but the passage of time: contents unchanged, some entries may now be expired
+                let post = self.dump(sys)?;
+                let strip = |d: &ProvDump| -> Vec<(u8, Vec<(u8, Vec<Multiaddr>)>)> {
+                    d.0.iter().map(|(k, l)| (*k, l.iter().map(|p| (p.peer, p.addrs.clone())).collect())).collect()
+                };
+                if strip(&post) != strip(&pre) || post.1 != pre.1 {
+                    return Err(Viol::new("providers/changed-by-time-alone", "store contents changed although no operation ran"));
+                }
+                sys.pre = post;
+            }
             ProvOp::PutProvider { key, peer, n_addr } => {
                 let addresses: Vec<Multiaddr> = (0..n_addr).map(|i| addr(peer, i)).collect();
                 let result = sys
@@ -753,7 +778,9 @@ impl Model for ProvModel {
     }
 
     fn canon(&self, sys: &ProvSys) -> Vec<u8> {
-        format!("{:?}", sys.pre).into_bytes()
+        // expiry classes depend on when each entry was written relative to the clock steps: the dump's `expired`
+        // flags plus the number of steps taken determine the future
+        format!("{:?}|{}", sys.pre, sys.clock_steps).into_bytes()
     }
 }
 
